@@ -234,6 +234,22 @@ def r3(ctx, R):
         raise AnalysisError(f'C13.R3: tabled in-place sites not found any more: {sorted(missing)[:3]}')
 
 
+def _reaches(repo, D, method, target_fn):
+    """does D.<method>() execute target_fn, directly or through a chain of super().<method>() calls along the MRO?"""
+    mro = [c for c in D.mro if isinstance(c, ClassInfo)]
+    i = 0
+    while i < len(mro):
+        c = mro[i]
+        if method in c.methods:
+            fn = c.methods[method]
+            if fn is target_fn:
+                return True
+            if not any(isinstance(k, ast.Call) and ast.unparse(k.func) == f'super().{method}' for k in ast.walk(fn)):
+                return False
+        i += 1
+    return False
+
+
 @rule('C13', 'C13.R4', 'escape boundaries copy; uend is only ever rebound to a fresh value', floor=50)
 def r4(ctx, R):
     repo = ctx.repo
@@ -243,6 +259,18 @@ def r4(ctx, R):
     st = [c for c in N.contribs if c.target.startswith('L.uold[')]
     ok = sorted(c.rhs for c in st) == sorted(['P.dtype_u(L.u[i1 - 1])', 'None'])
     R.check(ok, 'StoreUOld :: uold[i] = dtype_u(u[i]) (a copy, not the iterate itself)', f'{rel}:StoreUOld.post_iteration_processing', 'L.uold[i] = L.prob.dtype_u(L.u[i])', [c.describe() for c in st])
+    # the caller's initial value: copied through the datatype on every path, and never written through
+    rel = 'pySDC/core/step.py'
+    fn = repo.func(rel, 'Step.init_step')
+    R.fn(f'{rel}:Step.init_step')
+    from ..purity import Purity
+    N = Normalizer(fn)
+    st = [c for c in N.contribs if c.target == 'self.levels[0].u[0]']
+    p0 = fn.args.args[1].arg
+    ok = len(st) == 1 and st[0].op == '=' and st[0].rhs == f'self.levels[0].prob.dtype_u({p0})' and not st[0].guards
+    R.check(ok, "Step.init_step :: the caller's initial value is copied (levels[0].u[0] = dtype_u(u0), unconditionally) - the run never holds the caller's object", f'{rel}:Step.init_step', f'self.levels[0].u[0] = P.dtype_u({p0})', [c.describe() for c in st])
+    Pu = Purity(fn)
+    R.check(not [h for h in Pu.hits if h.params()], "Step.init_step :: no in-place write into the caller's object", f'{rel}:Step.init_step', 'no store through u0', [h.target for h in Pu.hits if h.params()])
     base = repo.cls('pySDC/core/sweeper.py', 'Sweeper')
     for ci in [base] + [c for c in repo.overriders(base, 'predict') if repo.is_library(c) and c is not base]:
         fn = ci.methods.get('predict')
@@ -269,7 +297,30 @@ def r4(ctx, R):
         if x.op == '=':
             fresh = rhs == 'None' or re.match(r'^[\w\.]*(dtype_u|u_init)\b', rhs) is not None or re.match(r'^P\.dtype_u\(', rhs) is not None
             if not fresh and re.fullmatch(r'[\w\.]+\.u\[(-1|0)\]', rhs):
-                R.exc(c, x.qual, 'uend is rebound to a node slot object of the same level (alias, no copy): safe because slots are only ever rebound or written in place at the tabled fresh-in-step sites (R3), and uend itself is never written in place outside them')
+                # the alias is safe only if no sweeper that ends up in this function overwrites node values IN PLACE in a later sweep of the same step
+                unsafe = []
+                if x.cls is not None and x.fn.name == 'compute_end_point':
+                    rk = repo.cls('pySDC/implementations/sweeper_classes/Runge_Kutta.py', 'RungeKutta')
+                    for D in repo.subclasses(x.cls):
+                        if not any(k in D.module.relpath for k in RUNTIME):
+                            continue
+                        r1 = repo.resolve(D, 'compute_end_point')
+                        r2 = repo.resolve(D, 'update_nodes')
+                        if r1 is None or r2 is None or not _reaches(repo, D, 'compute_end_point', x.fn):
+                            continue
+                        inplace = sorted(t for (f, t) in B4 if f == f'{r2[0].name}.update_nodes' and '.u[' in t)
+                        if not inplace:
+                            continue
+                        if repo.is_subclass(D, rk):
+                            pr = repo.resolve(D, 'predict')
+                            realloc = pr is not None and any(isinstance(a, ast.Assign) and re.fullmatch(r'\w+\.u\[m\]', ast.unparse(a.targets[0])) and re.search(r'dtype_u\(', ast.unparse(a.value)) for a in ast.walk(pr[1]))
+                            if realloc:
+                                continue
+                        unsafe.append(f'{D.name} (update_nodes writes {inplace[0]} in place)')
+                if unsafe:
+                    R.bad(c, x.qual, 'uend = <datatype constructor>(..) wherever a sweeper sharing this method overwrites node values in place (a logged/returned uend would change in the next sweep)', unsafe)
+                    continue
+                R.exc(c, x.qual, 'uend is rebound to a node slot object of the same level (alias, no copy): no sweeper resolving to this method writes node values in place between two sweeps of a step (Runge-Kutta sweepers do, but sweep once per step and their predict re-allocates every node slot)')
                 continue
             R.check(fresh, c, x.qual, 'uend = <datatype constructor>(..) | None', rhs)
         elif x.op in ('Add=', 'Sub='):
